@@ -1,12 +1,12 @@
 package world
 
 import (
-	"sort"
 	"bytes"
 	"encoding/binary"
 	"fmt"
 	"net"
 	"regexp"
+	"sort"
 
 	"github.com/datastax/go-cassandra-native-protocol/compression/lz4"
 	"github.com/datastax/go-cassandra-native-protocol/compression/snappy"
